@@ -22,7 +22,9 @@ class C25(Check):
         return [{"pre": [0, 0, 0, 0], "range": (1000, 1004), "seed": 0, "mode": "gather"},
                 {"pre": [0, 0, 0, 0, 0, 0], "range": (1000, 1007), "seed": 3, "mode": "gather"},
                 {"pre": [1001, 0, 1003, 0, 0], "range": (1000, 1005), "seed": 1, "mode": "gather"},
-                {"pre": [0, 0, 0, 0, 0], "range": (1000, 1006), "seed": 2, "mode": "scan"}]
+                {"pre": [0, 0, 0, 0, 0], "range": (1000, 1006), "seed": 2, "mode": "scan"},
+                {"pre": [0, 1001], "range": (1000, 1003), "seed": 4, "mode": "reserve"},
+                {"pre": [0, 0], "range": (1000, 1004), "seed": 5, "mode": "reserve"}]
 
     def gen_cases(self):
         rng = self.rng
@@ -38,7 +40,10 @@ class C25(Check):
                 if a in seen:
                     pre[i] = 0
                 seen.add(a)
-            out.append({"pre": pre, "range": (lo, hi), "seed": rng.randrange(1 << 30), "mode": rng.choice(["gather", "gather", "scan"])})
+            mode = rng.choice(["gather", "gather", "scan", "reserve"])
+            if mode == "reserve":
+                hi += 2          # room for the addresses reserved ahead of time
+            out.append({"pre": pre, "range": (lo, hi), "seed": rng.randrange(1 << 30), "mode": mode})
         return out
 
     def run_impl(self, case):
@@ -93,6 +98,16 @@ class C25(Check):
                         t.set_name(f"T{i}")
                     res = await asyncio.wait_for(asyncio.gather(*tasks), 120)
                     res = list(res)
+                elif case["mode"] == "reserve":
+                    # addresses are reserved ahead of time (an address once returned "will never be handed out again"),
+                    # a scan assigns the unaddressed terminals, then the rest of the range is reserved
+                    held = [await asyncio.wait_for(ec.find_free_address(), 120)]
+                    d = await asyncio.wait_for(ec.scan_serial_numbers(), 120)
+                    res = [d.get(100 + i) for i in range(n)]
+                    free_left = (case["range"][1] - case["range"][0] + 1) - len(set(r for r in res if r and case["range"][0] <= r <= case["range"][1])) - 1
+                    for _ in range(min(2, max(0, free_left))):
+                        held.append(await asyncio.wait_for(ec.find_free_address(), 120))
+                    res = res + held
                 else:
                     d = await asyncio.wait_for(ec.scan_serial_numbers(), 120)
                     res = [d.get(100 + i) for i in range(n)]
@@ -144,7 +159,7 @@ class C25(Check):
         lo, hi = case["range"]
         pre = case["pre"]
         res = o["res"]
-        given = [r for a, r in zip(pre, res) if not a]
+        given = [r for a, r in zip(pre, res) if not a] + list(res[len(pre):])      # the latter: addresses reserved with find_free_address
         for a, r in zip(pre, res):
             if a and r != a:
                 return f"terminal that answered with {a} was reported at {r}"
